@@ -146,6 +146,17 @@ func kindPolicy(kind string) *seccomp.Policy {
 		return &seccomp.Policy{DefaultAction: seccomp.ActionAllow, Syscalls: []seccomp.SyscallGroup{{Action: seccomp.ActionErrno}}}
 	case "perm-log":
 		return &seccomp.Policy{DefaultAction: seccomp.ActionLog, Syscalls: []seccomp.SyscallGroup{{Action: seccomp.ActionLog, Names: []string{"getppid"}}}}
+	case "denystrict", "denystrict-enosys", "denyaux":
+		// environments for Supported(): seccomp(2) is refused for strict mode only (operation 0; EPERM or ENOSYS), or for
+		// every operation above SET_MODE_FILTER - filter mode itself works
+		act, c := seccomp.ActionErrno, seccomp.Condition{Argument: 0, Operation: seccomp.Equal, Value: 0}
+		if kind == "denyaux" {
+			c = seccomp.Condition{Argument: 0, Operation: seccomp.GreaterThan, Value: 1}
+		}
+		if kind == "denystrict-enosys" {
+			act = seccomp.Action(0x00050000 | 38)
+		}
+		return &seccomp.Policy{DefaultAction: seccomp.ActionAllow, Syscalls: []seccomp.SyscallGroup{{Action: act, NamesWithCondtions: []seccomp.NameWithConditions{{Name: "seccomp", Conditions: seccomp.ArgumentConditions{c}}}}}}
 	case "actions":
 		// every action the library knows, as default and group actions
 		return &seccomp.Policy{DefaultAction: seccomp.ActionKillProcess, Syscalls: []seccomp.SyscallGroup{
